@@ -123,6 +123,11 @@ MUTANTS of /repo tried in a scratch worktree (all reported VIOLATION with a conc
       changed the file system between reads of one tensor object); caught since the world-changing events were added:
       e.g. base W/da, loc f1: tofile ; da/f1 replaced by a symlink to W/outside/secret ; tofile -> canary bytes
       [correspondence + oracle, concrete shrunk replay].
+  seeded C10-r5m3 (set_base_dir honours a `basepath` external_data entry kept in tensor.meta): missed at first (no model
+      file carried extra external_data entries); now the loaded models of the load tie and of the traversal tie carry
+      basepath (absolute / with .. / benign / empty), checksum and unknown keys; the base must be exactly the model
+      directory whatever the entries say (Traverse.base_after_load_ignores_entries) and the bytes must be the model
+      directory's w.bin [traversal correspondence + oracle, concrete shrunk model spec].
   seeded C10-r4m1 (base_dir setter stores normpath(value)): first seen only as row/trace mismatches; now caught with
       input by (a) load() spellings with ".." after a symlinked directory (lsub -> da/sub: "lsub/../m.onnx" is
       da/m.onnx, the collapsed base "." reads <root>/w.bin) and (b) tensor histories whose setbase goes through such
@@ -1104,11 +1109,21 @@ def eval_worlds(ck, batch: list, tag: str, text: str | None = None) -> list:
 
 # =========================================================================== onnx_ir.load
 
-def build_model_file(path: str, inside_loc: str, escape_loc: str) -> None:
+def build_model_file(path: str, inside_loc: str, escape_loc: str, with_extras: bool = True, extras_root: str | None = None) -> None:
     """A model whose external tensors sit in every place load() should visit: graph initializer, node
     attribute, subgraph initializer, and a node attribute inside a model-local function."""
     import onnx
     from onnx import TensorProto, helper
+
+    # extra external_data entries a model file can carry (kept in tensor.meta since fb2515e): none of them may move
+    # the base directory away from the directory of the model file
+    outside_abs = os.path.join(os.path.dirname(os.path.dirname(os.path.abspath(path))), "outside") \
+        if extras_root is None else os.path.join(extras_root, "outside")
+    extras = {"init_in": [("basepath", "../outside"), ("checksum", "0123abcd")],
+              "subinit_in": [("basepath", outside_abs)],
+              "func_in": [("basepath", ".."), ("unknown_key", "v")],
+              "attr_esc": [("basepath", "."), ("checksum", "ff")],
+              "func_esc": [("Basepath", "../outside"), ("base_dir", outside_abs)]}
 
     def ext(name, loc):
         t = TensorProto()
@@ -1118,6 +1133,9 @@ def build_model_file(path: str, inside_loc: str, escape_loc: str) -> None:
         t.data_location = TensorProto.EXTERNAL
         e = t.external_data.add()
         e.key, e.value = "location", loc
+        for k, v in extras.get(name, []) if with_extras else []:
+            e = t.external_data.add()
+            e.key, e.value = k, v
         return t
 
     fn = helper.make_function(
@@ -1267,6 +1285,7 @@ DOTDOT_SPELLINGS = [("", "lsub/../m.onnx", "da"), ("", W + "/lsub/../m.onnx", "d
                     ("da", "sub/up/sub/../m.onnx", "da"), ("", "/" + W + "/lsub/../m.onnx", "da")]
 DIR_FID = {"da": 7, "pub": 11, "pub2": 12}
 LOAD_PLAN = [["dir", "da"], ["dir", "da/sub"], ["dir", "outside"], ["file", "outside/secret", 200, 8],
+             ["file", "outside/w.bin", 200, 4],
              ["file", "da/w.bin", 7, 4], ["symlink", "lbase", "da"], ["symlink", "da/sub/up", ".."]]
 
 
@@ -1284,11 +1303,11 @@ def load_tie(ck, idx: int):
         if d == "da/sub":
             esc = "../../outside/secret"
         inside = "w.bin" if d == "da" else ("../w.bin" if d == "da/sub" else "da/w.bin")
-        build_model_file(mp, inside, esc)
+        build_model_file(mp, inside, esc, extras_root=root)
         spellings = [(c, sp, None) for c, sp in load_spellings(ck.rng, d, links)]
         if d == "da":
             esc = "../outside/secret"          # escapes from da, pub and pub2 alike
-            build_model_file(mp, inside, esc)
+            build_model_file(mp, inside, esc, extras_root=root)
             spellings += LINK_SPELLINGS + DOTDOT_SPELLINGS
         for cwd, sp, entry_dir in spellings:
             obs = run_load(root, d, cwd, sp, snap, entry_dir)
@@ -1318,7 +1337,7 @@ def replay_load_case(case: dict, root: str) -> list:
     shutil.rmtree(root, ignore_errors=True)
     materialise(case["plan"], root)
     snap = Snapshot(root)
-    build_model_file(os.path.join(root, case["dir"], "m.onnx"), case["inside"], case["escape"].replace(W, root))
+    build_model_file(os.path.join(root, case["dir"], "m.onnx"), case["inside"], case["escape"].replace(W, root), extras_root=root)
     obs = run_load(root, case["dir"], case["cwd"], case["spelling"], snap, case.get("entry_dir"))
     return oracle_load(obs, 200, case.get("inside_fid"))
 
@@ -1429,7 +1448,9 @@ def load_known_key(bad: list) -> str | None:
 
 def run(ck) -> None:
     import logging
+    import warnings
     logging.disable(logging.WARNING)
+    warnings.filterwarnings("ignore", message="Ignoring unknown external data key")
     ck.trust("Coq 8.16.1 kernel (coqc; vm_compute in case files; no native_compute)",
              "harness/props/c10.py (world/location generators, lstat snapshot -> Coq node literal, tracer, oracle)",
              "modelled not verified: POSIX path resolution (kwalk: dirs/regular files/symlinks, nesting bound instead of "
@@ -1894,7 +1915,12 @@ def gen_tree(rng, depth=0, counter=None) -> dict:
 
     def tensor(init=False):
         counter[0] += 1
-        return {"id": counter[0], "ext": rng.random() < 0.75,
+        extra = []
+        if rng.random() < 0.35:
+            extra = rng.choice([[["basepath", "{R}/out"]], [["basepath", "../out"]], [["basepath", ".."]], [["basepath", "sub"]],
+                                [["basepath", "."]], [["checksum", "00ff"]], [["whatever", "x"], ["basepath", "md/../../out"]],
+                                [["BasePath", "../out"]], [["basepath", ""]]])
+        return {"id": counter[0], "ext": rng.random() < 0.75, "extra": extra,
                 "name": f"i{counter[0]}" if init else rng.choice(["t0", "t1", "t2", f"u{counter[0]}"])}   # names repeat on purpose
     g = {"inits": [tensor(True) for _ in range(rng.randrange(0, 3))], "nodes": []}
     for _ in range(rng.randrange(0, 4 if depth < 2 else 2)):
@@ -1923,7 +1949,7 @@ def gen_model_spec(rng) -> dict:
     return spec
 
 
-def _tensor_proto(t: dict):
+def _tensor_proto(t: dict, root: str = ""):
     from onnx import TensorProto
     p = TensorProto()
     p.name = t["name"]
@@ -1934,12 +1960,15 @@ def _tensor_proto(t: dict):
         p.data_location = TensorProto.EXTERNAL
         e = p.external_data.add()
         e.key, e.value = "location", "w.bin"
+        for k, v in t.get("extra", []):
+            e = p.external_data.add()
+            e.key, e.value = k, v.replace("{R}", root)
     else:
         p.raw_data = b"\x01"
     return p
 
 
-def _graph_proto(g: dict, name: str, ctr: list):
+def _graph_proto(g: dict, name: str, ctr: list, root: str = ""):
     from onnx import helper
     nodes = []
     for attrs in g["nodes"]:
@@ -1947,19 +1976,19 @@ def _graph_proto(g: dict, name: str, ctr: list):
         kw = {}
         for j, a in enumerate(attrs):
             if a[0] == "t":
-                kw[f"a{j}"] = _tensor_proto(a[1])
+                kw[f"a{j}"] = _tensor_proto(a[1], root)
             elif a[0] == "ts":
                 if a[1]:
-                    kw[f"a{j}"] = [_tensor_proto(x) for x in a[1]]
+                    kw[f"a{j}"] = [_tensor_proto(x, root) for x in a[1]]
             elif a[0] == "g":
-                kw[f"a{j}"] = _graph_proto(a[1], f"{name}_g{ctr[0]}_{j}", ctr)
+                kw[f"a{j}"] = _graph_proto(a[1], f"{name}_g{ctr[0]}_{j}", ctr, root)
             elif a[0] == "gs":
                 if a[1]:
-                    kw[f"a{j}"] = [_graph_proto(x, f"{name}_gs{ctr[0]}_{j}_{k}", ctr) for k, x in enumerate(a[1])]
+                    kw[f"a{j}"] = [_graph_proto(x, f"{name}_gs{ctr[0]}_{j}_{k}", ctr, root) for k, x in enumerate(a[1])]
             else:
                 kw[f"a{j}"] = 1
         nodes.append(helper.make_node("Xop", [], [f"o{ctr[0]}"], **kw))
-    return helper.make_graph(nodes, name, [], [], initializer=[_tensor_proto(t) for t in g["inits"]])
+    return helper.make_graph(nodes, name, [], [], initializer=[_tensor_proto(t, root) for t in g["inits"]])
 
 
 def run_traverse(spec: dict, root: str) -> dict:
@@ -1968,14 +1997,18 @@ def run_traverse(spec: dict, root: str) -> dict:
     from onnx import helper
     import onnx_ir as ir
     shutil.rmtree(root, ignore_errors=True)
-    os.makedirs(os.path.join(root, "md"))
+    os.makedirs(os.path.join(root, "md", "sub"))
+    os.makedirs(os.path.join(root, "out"))
     with open(os.path.join(root, "md", "w.bin"), "wb") as f:
         f.write(b"\x07")
+    for other in ("out/w.bin", "md/sub/w.bin", "w.bin"):      # same-named data files elsewhere (canaries)
+        with open(os.path.join(root, other), "wb") as f:
+            f.write(b"\xc8")
     ctr = [0]
-    g = _graph_proto(spec["graph"], "main", ctr)
+    g = _graph_proto(spec["graph"], "main", ctr, root)
     funcs = []
     for i, body in enumerate(spec["funcs"]):
-        fg = _graph_proto({"inits": [], "nodes": body}, f"f{i}", ctr)
+        fg = _graph_proto({"inits": [], "nodes": body}, f"f{i}", ctr, root)
         funcs.append(helper.make_function("dom", f"F{i}", [], [], list(fg.node), [helper.make_opsetid("", 18)]))
     m = helper.make_model(g, functions=funcs, opset_imports=[helper.make_opsetid("", 18), helper.make_opsetid("dom", 1)])
     path = os.path.join(root, "md", "m.onnx")
@@ -1999,7 +2032,14 @@ def run_traverse(spec: dict, root: str) -> dict:
                     ok = (st.st_dev, st.st_ino) == (want.st_dev, want.st_ino)
                 except OSError:
                     ok = False
-            seen[tid] = {"ext": ext, "base": os.fspath(t.base_dir) if ext else None, "ok": ok}
+            rd = None
+            if ext:
+                try:
+                    rd = bytes(t.tobytes())
+                except Exception as e:  # noqa: BLE001
+                    rd = common.exn_name(e)
+                t.release()
+            seen[tid] = {"ext": ext, "base": os.fspath(t.base_dir) if ext else None, "ok": ok, "read": rd}
 
         def vg(gr):
             for v in gr.initializers.values():
@@ -2061,7 +2101,10 @@ def oracle_traverse(spec: dict, seen: dict) -> list:
         if o is None:
             bad.append(f"tensor {t['id']} ({t['name']}) not found in the loaded model")
         elif t["ext"] and not o["ok"]:
-            bad.append(f"external tensor {t['id']} ({t['name']}): base_dir {o['base']!r} is not the model's directory after load")
+            bad.append(f"external tensor {t['id']} ({t['name']}, extra entries {t.get('extra')}): base_dir {o['base']!r} "
+                       "is not the model's directory after load")
+        elif t["ext"] and isinstance(o.get("read"), bytes) and o["read"] != b"\x07":
+            bad.append(f"external tensor {t['id']}: read {o['read']!r}, not the model directory's data file")
     return bad
 
 
@@ -2133,6 +2176,8 @@ def traversal_tie(ck) -> None:
             o = seen.get(t["id"], {"ok": False})
             rows.append((len(specs), t, bool(o["ok"])))
             ck.hist("traversal_positions", "external" if t["ext"] else "inline")
+            for k, _v in (t.get("extra") or []) if t["ext"] else []:
+                ck.hist("external_data_extra_entries", k)
         specs.append((spec, mterm))
         if spec["funcs"] or any(a[0] in ("g", "gs") for nn in spec["graph"]["nodes"] for a in nn):
             ck.nontriv(("traverse", json.dumps(spec)))
